@@ -182,6 +182,148 @@ def sumOver (idx : List Nat) (f : Nat → α) : α := idx.foldl (fun a k => a + 
 (reference element first), `subst` the indices of the substitutional elements -/
 def vflux (subst : List Nat) (J u : Nat → α) (k : Nat) : α := J k - u k * sumOver subst J
 
+/-! ### the shift/clamp pair merged into one `np.where` (a WRONG reading of the two lines, kept to
+state what the order of the two statements buys) -/
+
+/-- `np.where(x > min, x - len(allElements)*min, min)`: the condition is evaluated on the unshifted
+value, nothing clamps after the shift. -/
+def shiftClampMerged (minC nAll v : α) : α := if minC < v then v - nAll * minC else minC
+
+/-- Diffusion.setup with the merged line in place of the shift-then-clamp pair -/
+def setupMerged (cfg : Cfg α) (built : State α) (s : MState α) : Except String (MState α) :=
+  let x0 := if s.isSetup then s.x else applyBCInit cfg.N cfg.bc built
+  if sumExceeds cfg x0 then
+    .error "Some compositions sum up to above 1"
+  else
+    .ok { x := if s.isSetup then x0 else fun e i => shiftClampMerged cfg.minC cfg.nAll (x0 e i), isSetup := true }
+
+/-- the dependent (reference) component at node i: `1 - np.sum(x, axis=0)[i]` -/
+def dependent (E : Nat) (x : State α) (i : Nat) : α := 1 - sumE E x i
+
+/-! ### entering boundary conditions
+  kawin/diffusion/DiffusionParameters.py  BoundaryConditions.__init__ / setBoundaryCondition /
+      setLeftBoundaryCondition / setRightBoundaryCondition / _setupBoundary / setupDefaults
+  kawin/diffusion/Diffusion.py            DiffusionModel.__init__ (boundaryConditions argument), setBC
+
+The four dictionaries `leftBCtype`, `leftBC`, `rightBCtype`, `rightBC` are keyed by whatever object was
+passed as `element`.  Keys are modelled as `Option Nat`: `some e` is the name of the e-th independent element
+(names that are not elements of the model get indices ≥ E), `none` is the Python `None` that
+`DiffusionModel.setBC` passes on when it is called without `element`. -/
+
+abbrev Key := Option Nat
+
+/-- the `side` argument: `LEFT`/`'left'`, `RIGHT`/`'right'`, anything else -/
+inductive SideArg where
+  | left
+  | right
+  | invalid
+deriving DecidableEq, Repr
+
+/-- the `bcType` argument: `FLUX_BC`/`'flux'`, `COMPOSITION_BC`/`'composition'`, any other string -/
+inductive TypeArg where
+  | flux
+  | comp
+  | invalid
+deriving DecidableEq, Repr
+
+def TypeArg.toBC? : TypeArg → Option BCType
+  | .flux => some .flux
+  | .comp => some .comp
+  | .invalid => none
+
+/-- the four dictionaries of a BoundaryConditions object (`none` = key absent) -/
+structure BCStore (α : Type) where
+  ltype : Key → Option BCType
+  lval : Key → Option α
+  rtype : Key → Option BCType
+  rval : Key → Option α
+
+/-- BoundaryConditions.__init__ -/
+def BCStore.empty : BCStore α := ⟨fun _ => none, fun _ => none, fun _ => none, fun _ => none⟩
+
+/-- `d[k] = v` -/
+def dset {β : Type} (d : Key → Option β) (k : Key) (v : β) : Key → Option β :=
+  fun j => if j = k then some v else d j
+
+/-- BoundaryConditions.setBoundaryCondition: the string type is validated first (ValueError), then the side
+selects the pair of dictionaries (ValueError for any other side).  Result: the object afterwards and whether
+the call raised. -/
+def setBoundaryCondition (s : BCStore α) (side : SideArg) (t : TypeArg) (v : α) (k : Key) : BCStore α × Bool :=
+  match t.toBC? with
+  | none => (s, true)
+  | some ty =>
+    match side with
+    | .left => ({ s with ltype := dset s.ltype k ty, lval := dset s.lval k v }, false)
+    | .right => ({ s with rtype := dset s.rtype k ty, rval := dset s.rval k v }, false)
+    | .invalid => (s, true)
+
+/-- BoundaryConditions.setLeftBoundaryCondition -/
+def setLeftBoundaryCondition (s : BCStore α) (t : TypeArg) (v : α) (k : Key) : BCStore α × Bool :=
+  setBoundaryCondition s .left t v k
+
+/-- BoundaryConditions.setRightBoundaryCondition -/
+def setRightBoundaryCondition (s : BCStore α) (t : TypeArg) (v : α) (k : Key) : BCStore α × Bool :=
+  setBoundaryCondition s .right t v k
+
+/-- a helper that forwards the wrong side (WRONG variant of setRightBoundaryCondition, for the witness) -/
+def setRightBoundaryConditionSwapped (s : BCStore α) (t : TypeArg) (v : α) (k : Key) : BCStore α × Bool :=
+  setBoundaryCondition s .left t v k
+
+/-- DiffusionModel.setBC: left call, then right call (not reached when the left call raised); `element`
+is passed on unchanged, `None` included. -/
+def setBC (s : BCStore α) (lt : TypeArg) (lv : α) (rt : TypeArg) (rv : α) (k : Key) : BCStore α × Bool :=
+  let r1 := setBoundaryCondition s .left lt lv k
+  if r1.2 then r1 else setBoundaryCondition r1.1 .right rt rv k
+
+/-- one boundary-condition-entering call -/
+inductive BCOp (α : Type) where
+  | set (side : SideArg) (t : TypeArg) (v : α) (k : Key)
+  | setLeft (t : TypeArg) (v : α) (k : Key)
+  | setRight (t : TypeArg) (v : α) (k : Key)
+  | setBC (lt : TypeArg) (lv : α) (rt : TypeArg) (rv : α) (k : Key)
+
+def applyOp (s : BCStore α) : BCOp α → BCStore α × Bool
+  | .set side t v k => setBoundaryCondition s side t v k
+  | .setLeft t v k => setLeftBoundaryCondition s t v k
+  | .setRight t v k => setRightBoundaryCondition s t v k
+  | .setBC lt lv rt rv k => setBC s lt lv rt rv k
+
+/-- a sequence of entering calls on one object (the caller catches the exceptions and goes on) -/
+def applyOps (s : BCStore α) (ops : List (BCOp α)) : BCStore α := ops.foldl (fun s o => (applyOp s o).1) s
+
+/-- does the call write the (side, key) entry?  (valid type, that side, that key) -/
+def BCOp.writesLeft (k : Key) : BCOp α → Bool
+  | .set side t _ k' => decide (side = .left) && t.toBC?.isSome && decide (k = k')
+  | .setLeft t _ k' => t.toBC?.isSome && decide (k = k')
+  | .setRight _ _ _ => false
+  | .setBC lt _ _ _ k' => lt.toBC?.isSome && decide (k = k')
+
+def BCOp.writesRight (k : Key) : BCOp α → Bool
+  | .set side t _ k' => decide (side = .right) && t.toBC?.isSome && decide (k = k')
+  | .setLeft _ _ _ => false
+  | .setRight t _ k' => t.toBC?.isSome && decide (k = k')
+  | .setBC lt _ rt _ k' => lt.toBC?.isSome && rt.toBC?.isSome && decide (k = k')
+
+/-- BoundaryConditions._setupBoundary for the keys of the E independent elements: `if element not in d: d[element] = v` -/
+def dfill {β : Type} (E : Nat) (d : Key → Option β) (v : β) : Key → Option β := fun j =>
+  match j with
+  | some e => if e < E then (match d j with | some w => some w | none => some v) else d j
+  | none => d j
+
+/-- BoundaryConditions.setupDefaults(elements) for the E independent elements: absent keys get FLUX_BC / 0 -/
+def setupDefaults (E : Nat) (s : BCStore α) : BCStore α :=
+  ⟨dfill E s.ltype .flux, dfill E s.lval 0, dfill E s.rtype .flux, dfill E s.rval 0⟩
+
+/-- what the mesh code reads for element e after `setupDefaults`: `leftBCtype[e]`, `leftBC[e]`, … -/
+def toBC (s : BCStore α) (e : Nat) : BC α :=
+  ⟨(s.ltype (some e)).getD .flux, (s.lval (some e)).getD 0, (s.rtype (some e)).getD .flux, (s.rval (some e)).getD 0⟩
+
+/-- DiffusionModel.__init__: `boundaryConditions if boundaryConditions is not None else BoundaryConditions()` -/
+def initBC (arg : Option (BCStore α)) : BCStore α :=
+  match arg with
+  | some s => s
+  | none => BCStore.empty
+
 end generic
 
 end KawinV.Diffusion
